@@ -229,7 +229,57 @@ def after_interrupted_sync(w, case, pre_data, old_snap, graceful, label, torn_pa
     return None
 
 
+def run_autosave_lag(case, ctx):
+    """scenario (regression of a repaired defect): an autosave point while a parity writer thread lags behind.  One parity level
+    is slowed down by the shim, the process is killed after each of the state-changing calls that follow the autosave's content
+    rename, and the content file then on disk must not record as synced any stripe whose parity has not been written."""
+    from sandbox import default_cfg
+    cfg = default_cfg(ndisks=2, levels=case.get("levels", 3), bs_kib=1, content=["par"], autosave_at=case.get("autosave_at", 5), io_cache=case.get("io_cache"))
+    w = World(cfg, ctx.rel, shim=ctx.shim)
+    sv = None
+    try:
+        w.fs_step({"op": "create", "disk": 0, "name": "a", "size": 20 * 1024, "cseed": 1, "kind": 0})
+        w.fs_step({"op": "create", "disk": 1, "name": "b", "size": 20 * 1024, "cseed": 2, "kind": 0})
+        sv = Saved(w)
+        trf = os.path.join(w.arr.root, "logs", "aslag")
+        ref = w.cmd("sync", shim_env={"TRACE": trf, "SLOW": case["slow"]})
+        if ref.rc != 0 or ref.timed_out:
+            return Outcome(ok=True, inconclusive=True, why="reference sync failed")
+        # index (among the state-changing calls) of the rename that installs the autosaved content file: the second one
+        calls = [l.split(" ") for l in (ref.trace or b"").decode("latin-1").splitlines()]
+        sc = [c for c in calls if len(c) >= 7 and c[2] in ("write", "pwrite", "rename", "ftruncate", "fallocate", "fsync", "unlink", "mkdir", "link", "symlink", "utimens")]
+        ren = [i for i, c in enumerate(sc) if c[2] == "rename" and c[3].endswith("/content")]
+        if len(ren) < 3:
+            return Outcome(ok=True, inconclusive=True, why="no autosave in the reference run")
+        n = 0
+        for k in range(ren[1], min(len(sc), ren[1] + case.get("window", 14))):
+            sv.restore()
+            r = w.cmd("sync", shim_env={"KILL": "%d:after" % k, "SLOW": case["slow"]})
+            if r.timed_out:
+                return Outcome(ok=True, inconclusive=True, why="timeout")
+            if r.rc != 137:
+                continue
+            n += 1
+            try:
+                c = w.content_model()
+            except cfparse.ContentError as e:
+                return Outcome(ok=False, why="sync killed after call %d (autosave scenario): content not loadable: %s" % (k, e))
+            if c is None:
+                continue
+            probs, _ = w.oracle()
+            if probs:
+                return Outcome(ok=False, why="sync killed after call %d, just after an autosave with a lagging parity writer: %s" % (k, probs[0]))
+        return Outcome(ok=True, nontrivial=n > 0, classes=["autosave with a lagging parity writer"], n_eval=max(1, n),
+                       fp="autosave-lag-%s" % case["slow"], sample={"kill_points": n, "slow": case["slow"]})
+    finally:
+        if sv:
+            sv.drop()
+        w.destroy()
+
+
 def run_case(case, ctx):
+    if case.get("kind") == "autosave_lag":
+        return run_autosave_lag(case, ctx)
     cfg = dict(case["cfg"])
     cfg["rules"] = ["exclude *.unrecoverable"]
     w = World(cfg, ctx.rel, shim=ctx.shim)
@@ -262,7 +312,10 @@ def run_case(case, ctx):
         classes.add("io_cache=%s" % cfg.get("io_cache"))
         fps = []
         points = []
-        if thorough and nsc <= 150:
+        det = case.get("_detail") or {}
+        if "k" in det and "mode" in det:
+            points.append((det["k"], det["mode"]))   # replay of a saved failure: exactly that interruption
+        elif thorough and nsc <= 150:
             for k in range(nsc):
                 for m in ("before", "after", "short"):
                     points.append((k, m))
@@ -277,7 +330,7 @@ def run_case(case, ctx):
                     points.append((f["kfrac"] * nsc // 1000, f["mode"]))
         nontrivial = 0
         n_done = 0
-        base_fp = hashlib.sha1(json.dumps(case, sort_keys=True).encode()).hexdigest()[:12]
+        base_fp = hashlib.sha1(json.dumps({k_: v_ for k_, v_ in case.items() if k_ != "_detail"}, sort_keys=True).encode()).hexdigest()[:12]
         for (k, mode) in points:
             sv.restore()
             graceful = mode in ("SIGINT", "SIGTERM")
